@@ -10,6 +10,7 @@ CONSTANTS
   ExtNames = {"a", "b"}
   MaxFiles = {1, 2, 1000000}
   FaultSet <- FaultsNone
+  Restarts = {}
   WhatIf = "none"
 SPECIFICATION Spec
 INVARIANT NoViolation
